@@ -777,6 +777,12 @@ func runLC(steps []lcStep) (*lcWorld, bubbleResult) {
 					// two simultaneous data requests of one polling client are themselves an overlap
 					s.addCause("overlap")
 				}
+				appc := map[string]bool{"appClose": true, "appCloseNow": true}
+				if s.pc != nil && ((posts[st.Cause] && appc[st.Cause2]) || (posts[st.Cause2] && appc[st.Cause])) {
+					// a data request in flight while the application closes the session is aborted by the
+					// server; its connection ending is then reported like a dropped request
+					s.addCause("drop")
+				}
 				s.addCause(st.Cause)
 				var wg sync.WaitGroup
 				wg.Add(2)
